@@ -3,13 +3,20 @@ Tie for C10: facts regenerated from pkg/bip32path/path.go.
 `parseBase = 10` is what makes "the digits are read as decimal" true of the source: with
 `strconv.ParseUint(s, 0, 31)` (base-sensing: "010" is octal 8, "08" a syntax error) the model
 `decValue` is NOT what the code computes — finding F3, repaired by a `fix:` commit.
+
+The functions `parseUint31`, `ParsePath` and `Path.String` are translated AS CODE (`Gen.Bip32Path.code.*`) and proved equal
+to the model for all inputs in `Iota/Tie/Bip32PathCode.lean`; the theorems `code_*` below re-export the results.  What is
+assumed about the two library functions the code calls (`keyReg.FindStringSubmatch`, `strconv.ParseUint`) is the
+structure `Bip32PathCode.Externs`.
 -/
 import Iota.Gen.Bip32Path
 import Iota.Tie.Expect
 import Iota.Model.Bip32Path
+import Iota.Tie.Bip32PathCode
 
 namespace Iota.Tie.C10
 open Iota
+open Iota.Tie.Bech32Code (bv)
 
 theorem parse_base_is_decimal : Gen.Bip32Path.parseBase = 10 := by decide
 theorem parse_bit_size : Gen.Bip32Path.parseBitSize = 31 := by decide
@@ -17,22 +24,60 @@ theorem hardened_eq : Gen.Bip32Path.hardened = (Bip32Path.hardened : Int) := by 
 /-- the component regexp is `(\d+)([H']?)` -/
 theorem key_regexp : Gen.Bip32Path.keyRegexp = [40,92,100,43,41,40,91,72,39,93,63,41] := by decide
 theorem separators : Gen.Bip32Path.trimPrefix = [109, 47] ∧ Gen.Bip32Path.splitSep = [47] := by decide
-/-- String prints "/%d" of `idx&^hardened` -/
-theorem print_format : Gen.Bip32Path.printFormat = [47, 37, 100] ∧
-    Gen.Bip32Path.printArg = [105, 100, 120, 32, 38, 94, 32, 104, 97, 114, 100, 101, 110, 101, 100] := by decide
+/-- String prints with the format "/%d" (what is printed — `idx &^ hardened` — is part of the translated code: `code_path_string`;
+the source text of that argument is no longer pinned, so that renaming the loop variable raises no alarm: control C10-h8) -/
+theorem print_format : Gen.Bip32Path.printFormat = [47, 37, 100] := by decide
 
 theorem src :
-    Gen.Bip32Path.src_bip32path_ParsePath = Expect.Bip32Path_src_bip32path_ParsePath ∧
-    Gen.Bip32Path.src_bip32path_Path_String = Expect.Bip32Path_src_bip32path_Path_String ∧
     Gen.Bip32Path.src_bip32path_Path_MarshalText = Expect.Bip32Path_src_bip32path_Path_MarshalText ∧
-    Gen.Bip32Path.src_bip32path_Path_UnmarshalText = Expect.Bip32Path_src_bip32path_Path_UnmarshalText ∧
-    Gen.Bip32Path.src_bip32path_parseUint31 = Expect.Bip32Path_src_bip32path_parseUint31 :=
-  ⟨rfl, rfl, rfl, rfl, rfl⟩
+    Gen.Bip32Path.src_bip32path_Path_UnmarshalText = Expect.Bip32Path_src_bip32path_Path_UnmarshalText :=
+  ⟨rfl, rfl⟩
 
 /-- everything else the package declares (imports, constants, types, variables, build constraints and the functions not
 pinned one by one) is unchanged too: no declaration of the modelled packages can change without a tie theorem failing. -/
 theorem rest :
     Gen.Bip32Path.rest_bip32path = Expect.Bip32Path_rest_bip32path :=
   rfl
+
+/-! ### the code tie (proofs in `Iota/Tie/Bip32PathCode.lean`) -/
+
+/-- **The Go function `ParsePath`, translated statement by statement, returns what the model's `parsePath` returns — the
+function C10 is proved about — for EVERY byte string `s` (no bound on its length) and every pair of library functions
+that behave as `Bip32PathCode.Externs` says (`FindStringSubmatch` = leftmost-first match of `(\d+)([H']?)`;
+`ParseUint(digits, 10, 31)` = the decimal value if it is below 2^31, else an error): where the model accepts with
+indices `p` the code returns `(p, nil)`, each index as a `uint32`; where the model rejects, the code returns `(nil, err)`
+with a non-nil error.** -/
+theorem code_parsePath (E : Bip32PathCode.Externs) (s : Bip32Path.Str) :
+    (∀ p, Bip32Path.parsePath s = some p →
+      Gen.Bip32Path.code.ParsePath E.findStringSubmatch E.parseUint (bv s) = some (p.map (BitVec.ofNat 32), none)) ∧
+    (Bip32Path.parsePath s = none →
+      ∃ e, Gen.Bip32Path.code.ParsePath E.findStringSubmatch E.parseUint (bv s) = some ([], some e)) :=
+  Bip32PathCode.ParsePath_eq E s
+
+/-- **Which error: `ErrInvalidPathFormat` when the first component the model rejects fails the shape test
+`digit+ [H']?`, otherwise (its digits are worth 2^31 or more) the error `strconv.ParseUint` returned** — this is
+`Bip32PathCode.pathErr` (`pathErr_eq`, `keyErr_format`, `keyErr_range`). -/
+theorem code_parsePath_error (E : Bip32PathCode.Externs) (s : Bip32Path.Str) (h : Bip32Path.parsePath s = none) :
+    Gen.Bip32Path.code.ParsePath E.findStringSubmatch E.parseUint (bv s) =
+      some ([], some (Bip32PathCode.pathErr E (Bip32Path.split (Bip32Path.trimPrefixM s)))) :=
+  Bip32PathCode.ParsePath_error E s h
+
+/-- **The Go function `ParsePath` never panics: not for any string, and not even for library functions that misbehave**
+(any two functions in the place of `FindStringSubmatch` and `ParseUint`): each of `matches[0]`, `matches[1]`,
+`matches[2]` is evaluated only after a test of `len(matches)` that makes it in range. -/
+theorem code_parsePath_never_panics (find : List (BitVec 8) → List (List (BitVec 8)))
+    (pu : List (BitVec 8) → BitVec 64 → BitVec 64 → (BitVec 64 × Option String)) (s : List (BitVec 8)) :
+    Gen.Bip32Path.code.ParsePath find pu s ≠ none :=
+  Bip32PathCode.ParsePath_never_panics_any find pu s
+
+/-- **The Go method `Path.String`, translated statement by statement, prints the model's `printPath`, for every list of
+32-bit indices** (`%d` of `idx &^ hardened`, an apostrophe when `idx >= hardened`). -/
+theorem code_path_string (p : List Nat) (hp : ∀ i ∈ p, i < 2 ^ 32) :
+    Gen.Bip32Path.code.Path_String (p.map (BitVec.ofNat 32)) = bv (Bip32Path.printPath p) :=
+  Bip32PathCode.Path_String_eq p hp
+
+/-- **The assumptions about the two library functions are satisfiable** (the model's own functions satisfy them), so the
+theorems above are not vacuous. -/
+theorem code_externs_satisfiable : Nonempty Bip32PathCode.Externs := Bip32PathCode.externs_satisfiable
 
 end Iota.Tie.C10
